@@ -59,6 +59,9 @@ def build(rng, i, transport="u"):
     body = body_bytes(tag, size)
     r = AReq(method=rng.choice(["POST", "PUT"]), target="/" + tag, version="1.1", headers=[("Host", "h")], framing=fr,
              body=body, chunks=random_chunks(rng, size) if fr in ("chunked", "both") else None, chunk_style=rng.below(4))
+    if fr == "both":
+        r.te_first = rng.chance(1, 2)          # either order of the two framing headers
+        r.te_value = rng.choice(["chunked", "chunked", "Chunked", "CHUNKED"])
     if fr == "chunked" and rng.chance(1, 4):
         r.headers.append(("Content-Length", str(rng.choice([0, 3, size + 5]))))   # TE wins over any Content-Length
     reads = rand_reads(rng, size)
